@@ -313,6 +313,12 @@ def nt_registry():
         for rec_ in ip.ghost.get('filters', {}).values():
             ip.add_pc(rec_['facts_m'](jq))
         ip.prove('nt/callee-requires-last-times-not-before-the-first', z3.Implies(z3.And(jq >= 0, jq < lt.length), lt.fn(jq) >= to_int(ft[0])))
+        # the contraction below (compute_dynamics) REQUIRES that a process tensor with a time step of its own agrees with the dt it is
+        # given: a caller dt that differs from pt.dt is announced as used ('Using specified dt') and then rejected there
+        pt_ = ip.target_kwargs.get('process_tensor')
+        if isinstance(pt_, Obj) and 'dt' in pt_.fields and 'dt' in kw:
+            ip.prove('nt/callee-accepts-the-time-step[caller-dt-differs-from-pt-dt]', veq(kw['dt'], pt_.fields['dt']),
+                     {'dt handed on': str(kw['dt']), 'time step of the process tensor': str(pt_.fields['dt'])})
         # "a time step passed by the caller governs both the returned time axes and the dynamics"
         ip.prove('nt/dt-governs-dynamics', veq(kw['dt'], g['dt_axes']) if 'dt' in kw else z3.BoolVal(False),
                  {'dt_forwarded': 'dt' in kw})
@@ -433,6 +439,8 @@ def post_nt(ip, ctx, out):
 
 
 def replay_nt(ob):
+    if 'callee-accepts-the-time-step' in ob['name']:
+        return {'func': 'caller_dt_conflict', 'inputs': {}}
     if ob['name'].startswith('two/anti'):
         return {'func': 'anti_axes', 'inputs': {'obligation': ob['name']}}
     if 'start-time' in ob['name']:
